@@ -397,3 +397,16 @@ func (n *Node) LogStrings() []string {
 	}
 	return out
 }
+
+// Clone deep-copies the cloud's state (not its hooks): the "cloud at the crash point".
+func (n *Node) Clone() *Node {
+	c := NewNode()
+	c.nextENI, c.nextIP = n.nextENI, n.nextIP
+	for id, e := range n.ENIs {
+		ce := *e
+		ce.V4 = append([]netip.Addr{}, e.V4...)
+		ce.V6 = append([]netip.Addr{}, e.V6...)
+		c.ENIs[id] = &ce
+	}
+	return c
+}
